@@ -577,12 +577,12 @@ def main(ctx):
     # theorems + model driver first; the Tie theorems separately, so that a tie broken by a change in /repo does not take
     # the model driver (needed by the correspondences and by the search for a failing input) down with it
     lean_ok, errs = ctx.lake_build(["GojaModel.C01.Props", "model_c01"])
-    names = ctx.audit("GojaModel.C01.Props", expect_min=24) if lean_ok else []
+    names = ctx.audit("GojaModel.C01.Props", expect_min=25) if lean_ok else []
     tie_ok, terrs = ctx.lake_build(["GojaModel.C01.Tie"])
     if tie_ok:
         for t in ["modelOps_agree", "tie_new", "tie_rdupN", "tie_dupLast", "tie_concatStrings", "new_instance", "jumps_agree",
                   "dyn_covered", "emitSetP_pops", "enterFinally_clears", "hasStash_decision", "scope_runtime_side", "exceptionFromValue_cases", "asUncatchable_cases",
-                  "recover_sites", "isEmptyResult_cases"] + ["stmt_skel_" + n for n in (
+                  "recover_sites", "isEmptyResult_cases", "slot_access_sites"] + ["stmt_skel_" + n for n in (
                       "compileExpressionStatement", "compileEmptyStatement", "compileIfStatement", "compileIfBody",
                       "compileLabeledWhileStatement", "compileLabeledDoWhileStatement", "compileLabeledForStatement",
                       "compileReturnStatement", "compileThrowStatement", "emitVarAssign", "compileStatements",
